@@ -678,7 +678,7 @@ func main() {
 		w.s.flush()
 	}, onPanic)
 
-	shards := run.Pick(256, 2048)
+	shards := run.Pick(256, 8192)
 	nStreams := run.Pick(24, 160)
 	nPlans := run.Pick(40, 60)
 	run.Parallel(shards, func(wk, i int) {
